@@ -149,7 +149,11 @@ class ProgramVerifier:
         return ex.alloc(ObjV(ci, {"st": s0})), s0
 
     # ================================================================ serialize
-    def verify_serialize(self, decl):
+    def verify_serialize(self, decl, variant=0):
+        """variant 1: for separating (non-trailing) delimiters the emitted loop may write the 0xFF
+        after the element guarded by `i + 1 < n` instead of before it guarded by `i > 0`; the bytes after
+        the loop are the same, the loop-head state differs by one pending delimiter.  Both are invariants
+        over the same FOLD function; the driver retries with variant 1 when variant 0 fails at a loop."""
         ci = self.class_info(decl)
         fi = ci.methods["serialize"]
         fields, lengths = field_plan(self.spec, decl)
@@ -209,7 +213,11 @@ class ProgramVerifier:
                 def inv(ex2, fr2):
                     i = fr2.env[var]
                     wo = ex2.obj(fr2.env["writer"])
-                    return [("data", wo.fields["data"].t == z3.Concat(entry_data, F(arr.t, i, entry_san))),
+                    expect = z3.Concat(entry_data, F(arr.t, i, entry_san))
+                    if variant == 1 and ins.delimited and not ins.trailing:
+                        n_ = z3.Length(arr.t)
+                        expect = z3.Concat(expect, z3.If(z3.And(i > 0, i < n_), self.V.enc(ex2, I(0xFF), "byte"), EMPTY))
+                    return [("data", wo.fields["data"].t == expect),
                             ("mode", wo.fields["_string_sanitization_mode"] == real_entry_san),
                             ("valid-prefix", A(arr.t, i)),
                             ("bounds", z3.And(i >= 0, i <= z3.Length(arr.t)))]
